@@ -45,29 +45,6 @@ Section STEP.
         pose proof (In_idler_tail _ _ _ _ W Hr Hid) as Hi. destruct rest as [|to r]; [destruct Hi|eauto].
   Qed.
 
-  (* ---- assembling GI /\ TI for the successor of a step by a user thread (clocks unchanged) ----- *)
-  Lemma user_step_intro (st st' : cstate) evs :
-    GI st -> TI st -> s_now st = s_clock st ->
-    WF st' -> nthreads st' = nthreads st -> s_now st' = s_now st -> s_clock st' = s_clock st ->
-    s_trace st' = evs ++ s_trace st -> (forall ev, In ev evs -> EvOK (s_trace st') ev) ->
-    (forall u, th_state (getth st' u) = READY \/ th_state (getth st' u) = RUNNING -> In u (s_runq st')) ->
-    (forall u, (u < length progs)%nat -> GoodT u (getth st' u) (s_now st) (s_clock st) (s_trace st')) ->
-    th_state (getth st' (idler_tid st)) <> SLEEPING ->
-    GI st' /\ TI st'.
-  Proof.
-    intros G T Hsync W' Hn Hnow Hclk Htr Hev Hring Hgood Hidl. split.
-    - constructor; auto.
-      + rewrite Hn. apply G.
-      + left. congruence.
-      + rewrite Hclk. apply G.
-      + rewrite Hnow. apply G.
-      + intros u Hu. rewrite Hnow, Hclk. auto.
-      + rewrite (idler_tid_nthreads _ _ _ Hn). auto.
-    - intros ev Hin. rewrite Htr in Hin. apply in_app_iff in Hin. destruct Hin as [Hin|Hin]; auto.
-      rewrite Htr. specialize (T ev Hin). clear - T.
-      induction evs as [|x l IH]; simpl; auto. apply EvOK_mono; auto.
-  Qed.
-
   (* ---- GI with the per-thread part dropped for the thread t that is being rewritten ------------ *)
   Record GIw (st : cstate) (t : tid) (tr : list event) : Prop := mkGIw {
     gw_wf : WF st;
@@ -108,8 +85,11 @@ Section STEP.
   Lemma GIw_t_range st t tr : GIw st t tr -> (t < nthreads st)%nat.
   Proof. intros G. rewrite (gw_n _ _ _ G). pose proof (gw_t _ _ _ G). lia. Qed.
 
-  Lemma GIw_mono st t tr x : GIw st t tr -> GIw st t (x :: tr).
-  Proof. intros [A B C D D' E F G H I J K]. constructor; auto. intros u Hu Hne. apply GoodT_mono; auto. Qed.
+  Lemma GIw_mono st t tr x : GIw st t tr -> ev_tid x = t -> GIw st t (x :: tr).
+  Proof.
+    intros [A B C D D' E F G H I J K] Hx. constructor; auto. intros u Hu Hne. apply GoodT_mono; auto.
+    intros X. congruence.
+  Qed.
 
   (* rewriting fields of t that the scheduler ignores keeps GIw *)
   Lemma GIw_modth st t tr f :
@@ -143,9 +123,11 @@ Section STEP.
     GIw st t (ev :: s_trace st) -> TI st ->
     EvOK (ev :: s_trace st) ev ->
     (th_err th <> 0 -> src_ok progs (ev :: s_trace st) t (th_err th) (th_esrc th)) ->
+    fresh progs t th (ev :: s_trace st) ->
+    (reports progs ev -> forall e1, In e1 (s_trace st) -> ev_tid e1 = t -> clearing progs e1 -> (ev_src e1 < ev_src ev)%nat) ->
     GI (apply_action st t (ARet r e) true) /\ TI (apply_action st t (ARet r e) true).
   Proof.
-    intros th ev G T Hev Hsrc.
+    intros th ev G T Hev Hsrc HF HP.
     pose proof (GIw_t_range _ _ _ G) as Hr.
     unfold apply_action. fold th. fold ev.
     set (st1 := set_trace st (ev :: s_trace st)).
@@ -168,6 +150,7 @@ Section STEP.
         + intros q Hq. pose proof (awake_no_waitq st t (gw_wf _ _ _ G) (gw_awake _ _ _ G)) as X. fold th in X. congruence.
         + intros X. congruence.
         + intros _ _. reflexivity.
+        + exact HF.
       - rewrite getth_modth_other by auto. change (getth st1 u) with (getth st u).
         apply (gw_good _ _ _ G); auto. }
     split.
@@ -180,7 +163,9 @@ Section STEP.
       + intros u. rewrite Hst. apply (gw_ring _ _ _ G).
       + exact Gd.
       + rewrite (idler_tid_nthreads _ _ _ Hn), Hst. apply (gw_idler _ _ _ G).
-    - intros x [<-|Hin]; [exact Hev|]. apply EvOK_mono. apply T. exact Hin.
+    - split.
+      + intros x [<-|Hin]; [exact Hev|]. apply EvOK_mono. apply (proj1 T). exact Hin.
+      + change (s_trace (modth st1 t f)) with (ev :: s_trace st). split; [exact (proj2 T)|exact HP].
   Qed.
 
   (* ---- thread_interrupt by the current thread -------------------------------------------------- *)
@@ -220,7 +205,7 @@ Section STEP.
           apply (gw_ring _ _ _ G); auto.
     - intros u Hu Hne. rewrite Gt, F1, F2. destruct (Nat.eqb_spec u j) as [->|Hne'].
       + apply GoodT_interrupted; auto. apply (gw_good _ _ _ G); auto.
-      + apply GoodT_mono. apply (gw_good _ _ _ G); auto.
+      + apply GoodT_mono; [apply (gw_good _ _ _ G); auto|]. intros _. eapply delivers_not_clearing; eauto.
     - rewrite Hidl, Gt. rewrite (GIw_idler_tid _ _ _ G).
       destruct (Nat.eqb_spec (length progs) j); [lia|]. rewrite <- (GIw_idler_tid _ _ _ G). apply (gw_idler _ _ _ G).
     - apply (gw_t _ _ _ G).
@@ -252,14 +237,30 @@ Section STEP.
     - intros [H|(j & H & _)]; rewrite Hop in H; injection H as ->; destruct Hp.
   Qed.
 
+  Lemma not_clearing_op ev c : ev_op progs ev = Some (OCore c) -> (forall d, c <> OUsleep d) -> ~ clearing progs ev.
+  Proof. intros H Hc ((d & Hd) & _). rewrite H in Hd. injection Hd as ->. apply (Hc d). reflexivity. Qed.
+  Lemma not_reports_op ev c : ev_op progs ev = Some (OCore c) -> plain_op c -> ~ reports progs ev.
+  Proof.
+    intros H Hp [((d & Hd) & _)|[(Hd & _)|((j & Hd) & _)]]; rewrite H in Hd; injection Hd as ->; destruct Hp.
+  Qed.
+  Lemma plain_not_usleep c : plain_op c -> forall d, c <> OUsleep d.
+  Proof. intros Hp d ->. destruct Hp. Qed.
+  Lemma fresh_interrupted t th e tr : fresh progs t th tr -> fresh progs t (interrupted th e (length tr)) tr.
+  Proof.
+    intros F. unfold interrupted. destruct (th_state th); try exact F.
+    - destruct (th_err th =? 0); [|exact F]. eapply fresh_deliver; [exact F|reflexivity].
+    - eapply fresh_deliver; [exact F|reflexivity].
+  Qed.
+
   Lemma case_interrupt st t j e :
     GIw st t (s_trace st) -> TI st ->
     cur_op t (getth st t) = Some (OCore (OInterrupt j e)) -> (j < length progs)%nat ->
     (th_err (getth st t) <> 0 -> src_ok progs (s_trace st) t (th_err (getth st t)) (th_esrc (getth st t))) ->
+    fresh progs t (getth st t) (s_trace st) ->
     GI (apply_action (thread_interrupt st j e) t (ARet 0 0) true) /\
     TI (apply_action (thread_interrupt st j e) t (ARet 0 0) true).
   Proof.
-    intros G T Hop Hj Hsrc0.
+    intros G T Hop Hj Hsrc0 HF0.
     assert (He : e <> 0) by (eapply NZ; exact Hop).
     destruct (interrupt_self_fields st t j e (gw_awake _ _ _ G)) as (F1 & F2 & F3 & F4).
     destruct (thread_interrupt_frame unit st j e) as (R & N & N1 & N2 & N3 & _).
@@ -272,7 +273,7 @@ Section STEP.
     assert (G1 : GIw st1 t (ev :: s_trace st1)).
     { rewrite N3. apply GIw_interrupt; auto. }
     apply aret_inv; auto.
-    - intros x Hx. rewrite N3 in *. apply T. exact Hx.
+    - apply (TI_same _ st); [exact T|exact N3].
     - eapply EvOK_plain; [exact Hevop|exact I|]. simpl. apply (gw_issued _ _ _ G1).
     - fold th1. rewrite N3. clearbody ev. unfold th1, st1. rewrite getth_thread_interrupt.
       destruct (Nat.eqb_spec t j) as [<-|Hne].
@@ -283,6 +284,10 @@ Section STEP.
           -- intros X. apply src_ok_mono; auto.
         * exfalso. apply (gw_awake _ _ _ G). exact Es.
       + intros X. apply src_ok_mono; auto.
+    - fold th1. rewrite N3. apply fresh_mono; [|intros _; eapply not_clearing_op; [exact Hevop|intros d; discriminate]].
+      unfold th1, st1. rewrite getth_thread_interrupt.
+      destruct (Nat.eqb_spec t j) as [<-|]; [apply fresh_interrupted|]; exact HF0.
+    - intros X. exfalso. eapply not_reports_op; [exact Hevop|exact I|exact X].
   Qed.
 
   (* rewriting scheduler-neutral fields of ANY thread j, given GoodT survives the rewrite *)
@@ -320,10 +325,11 @@ Section STEP.
     GIw st t (s_trace st) -> TI st ->
     cur_op t (getth st t) = Some (OCore (OShutdown j flag)) -> (j < length progs)%nat ->
     (th_err (getth st t) <> 0 -> src_ok progs (s_trace st) t (th_err (getth st t)) (th_esrc (getth st t))) ->
+    fresh progs t (getth st t) (s_trace st) ->
     GI (apply_action (thread_shutdown st j flag) t (ARet 0 0) true) /\
     TI (apply_action (thread_shutdown st j flag) t (ARet 0 0) true).
   Proof.
-    intros G T Hop Hj Hsrc0. unfold thread_shutdown.
+    intros G T Hop Hj Hsrc0 HF00. unfold thread_shutdown.
     set (st0 := modth st j (fun th => set_tshutdown th flag)).
     assert (G0 : GIw st0 t (s_trace st0)).
     { apply GIw_modth_any; auto.
@@ -339,7 +345,11 @@ Section STEP.
     { rewrite (P th_err) by reflexivity.
       replace (th_esrc (getth st0 t)) with (th_esrc (getth st t)); [exact Hsrc0|].
       symmetry. apply (getth_modth_proj unit th_esrc). reflexivity. }
-    clearbody st0. clear G T Hop Hsrc0 P st. rename st0 into st, G0 into G, T0 into T, Hop0 into Hop, Hsrc1 into Hsrc0.
+    assert (HF0 : fresh progs t (getth st0 t) (s_trace st0)).
+    { eapply fresh_same; [exact HF00| |].
+      - apply (getth_modth_proj unit th_err). reflexivity.
+      - apply (getth_modth_proj unit th_esrc). reflexivity. }
+    clearbody st0. clear G T Hop Hsrc0 P HF00 st. rename st0 into st, G0 into G, T0 into T, Hop0 into Hop, Hsrc1 into Hsrc0.
     destruct (tstate_eqb (th_state (getth st j)) SLEEPING) eqn:Esl.
     - (* the target sleeps: it is interrupted with EPERM *)
       destruct (interrupt_self_fields st t j EPERM (gw_awake _ _ _ G)) as (F1 & F2 & F3 & F4).
@@ -353,18 +363,25 @@ Section STEP.
       assert (G1 : GIw st1 t (ev :: s_trace st1)).
       { rewrite N3. apply GIw_interrupt; auto. discriminate. }
       apply aret_inv; auto.
-      + intros x Hx. rewrite N3 in *. apply T. exact Hx.
+      + apply (TI_same _ st); [exact T|exact N3].
       + eapply EvOK_plain; [exact Hevop|exact I|]. simpl. apply (gw_issued _ _ _ G1).
       + fold th1. rewrite N3. clearbody ev. unfold th1, st1. rewrite getth_thread_interrupt.
         destruct (Nat.eqb_spec t j) as [<-|Hne].
         * exfalso. apply (gw_awake _ _ _ G). destruct (tstate_eqb_spec (th_state (getth st t)) SLEEPING); [auto|discriminate].
         * intros X. apply src_ok_mono; auto.
+      + fold th1. rewrite N3. apply fresh_mono; [|intros _; eapply not_clearing_op; [exact Hevop|intros d; discriminate]].
+        unfold th1, st1. rewrite getth_thread_interrupt.
+        destruct (Nat.eqb_spec t j) as [<-|]; [apply fresh_interrupted|]; exact HF0.
+      + intros X. exfalso. eapply not_reports_op; [exact Hevop|exact I|exact X].
     - set (th1 := getth st t).
       set (ev := mkEv t (th_pc th1) 0 0 (s_now st) (th_issued th1) (th_shut_issue th1) (th_k th1) (th_esrc th1)).
+      assert (Hevop : ev_op progs ev = Some (OCore (OShutdown j flag))) by exact Hop.
       apply aret_inv; auto.
-      + apply GIw_mono; exact G.
+      + apply GIw_mono; [exact G|reflexivity].
       + eapply EvOK_plain; [exact Hop|exact I|]. simpl. apply (gw_issued _ _ _ G).
       + intros X. apply src_ok_mono; auto.
+      + apply fresh_mono; [exact HF0|]. intros _. eapply not_clearing_op; [exact Hevop|intros d; discriminate].
+      + intros X. exfalso. eapply not_reports_op; [exact Hevop|exact I|exact X].
   Qed.
 
   Lemma GIw_cur_exists st t tr : GIw st t tr -> th_state (getth st t) <> NOTCREATED.
@@ -378,10 +395,11 @@ Section STEP.
     cur_op t (getth st t) = Some (OCore (OCreate k jn)) ->
     (k < length progs)%nat -> th_state (getth st k) = NOTCREATED ->
     (th_err (getth st t) <> 0 -> src_ok progs (s_trace st) t (th_err (getth st t)) (th_esrc (getth st t))) ->
+    fresh progs t (getth st t) (s_trace st) ->
     GI (apply_action (do_create st k jn) t (ARet 0 0) true) /\
     TI (apply_action (do_create st k jn) t (ARet 0 0) true).
   Proof.
-    intros G T Hop Hk Hs Hsrc0.
+    intros G T Hop Hk Hs Hsrc0 HF0.
     assert (Hkr : (k < nthreads st)%nat) by (rewrite (gw_n _ _ _ G); lia).
     assert (Hkt : k <> t) by (intros ->; apply (GIw_cur_exists _ _ _ G); exact Hs).
     pose proof (fun u => getth_do_create unit st k jn u Hkr) as Gt.
@@ -393,6 +411,10 @@ Section STEP.
     { rewrite Gt. destruct (Nat.eqb_spec t k); [congruence|reflexivity]. }
     set (th1 := getth st1 t).
     set (ev := mkEv t (th_pc th1) 0 0 (s_now st1) (th_issued th1) (th_shut_issue th1) (th_k th1) (th_esrc th1)).
+    assert (Hevop : ev_op progs ev = Some (OCore (OCreate k jn))).
+    { unfold ev_op, ev. simpl. unfold th1. rewrite Ht1. exact Hop. }
+    assert (Hnc : forall u, ev_tid ev = u -> ~ clearing progs ev).
+    { intros u _. eapply not_clearing_op; [exact Hevop|intros d; discriminate]. }
     assert (G1 : GIw st1 t (ev :: s_trace st1)).
     { constructor.
       - apply WF_do_create; auto. apply (gw_wf _ _ _ G).
@@ -403,8 +425,9 @@ Section STEP.
       - intros u. rewrite Gt, R, in_app_iff. destruct (Nat.eqb_spec u k) as [->|]; [right; left; auto|].
         intros Hu. left. apply (gw_ring _ _ _ G); auto.
       - intros u Hu Hne. rewrite Gt. destruct (Nat.eqb_spec u k) as [->|].
-        + apply GoodT_fresh. apply (gw_pos _ _ _ G).
-        + apply GoodT_mono. apply (gw_good _ _ _ G); auto.
+        + apply (GoodT_fresh progs k (getth st k)); [apply (gw_pos _ _ _ G)|].
+          apply fresh_mono; [apply (g_fresh _ _ _ _ _ _ (gw_good _ _ _ G k Hu Hne))|apply Hnc].
+        + apply GoodT_mono; [apply (gw_good _ _ _ G); auto|apply Hnc].
       - rewrite (idler_tid_nthreads _ _ _ N), Gt. rewrite (GIw_idler_tid _ _ _ G).
         destruct (Nat.eqb_spec (length progs) k); [lia|]. rewrite <- (GIw_idler_tid _ _ _ G). apply (gw_idler _ _ _ G).
       - apply (gw_t _ _ _ G).
@@ -416,6 +439,9 @@ Section STEP.
       + unfold ev_op, ev. simpl. unfold th1. rewrite Ht1. exact Hop.
       + simpl. apply (gw_issued _ _ _ G1).
     - fold th1. unfold th1. rewrite Ht1. intros X. apply src_ok_mono. auto.
+    - assert (HFt : fresh progs t th1 (s_trace st1)) by (unfold th1; rewrite Ht1; exact HF0).
+      exact (fresh_mono progs t th1 (s_trace st1) ev HFt (Hnc t)).
+    - intros X. exfalso. exact (not_reports_op ev _ Hevop I X).
   Qed.
 
   (* ---- the current thread goes to sleep ----------------------------------------------------------- *)
@@ -474,7 +500,7 @@ Section STEP.
         destruct (Nat.eqb_spec (idler_tid st) t); [congruence|].
         destruct (Nat.eqb_spec (idler_tid st) to); [thsimpl; discriminate|].
         rewrite O0 by auto. apply (gw_idler _ _ _ G).
-    - intros ev Hev. rewrite Tr in *. apply T. exact Hev.
+    - apply (TI_same _ st); [exact T|exact Tr].
   Qed.
 
   (* ---- the current thread yields ------------------------------------------------------------------ *)
@@ -531,7 +557,7 @@ Section STEP.
         destruct (Nat.eqb_spec (idler_tid st) to); [thsimpl; discriminate|].
         destruct (Nat.eqb_spec (idler_tid st) t); [congruence|].
         rewrite O0 by auto. apply (gw_idler _ _ _ G).
-    - intros ev Hev. rewrite Tr in *. apply T. exact Hev.
+    - apply (TI_same _ st); [exact T|exact Tr].
   Qed.
 
   Lemma case_yield_to st t rest j k' :
@@ -587,17 +613,17 @@ Section STEP.
         destruct (Nat.eqb_spec (idler_tid st) j); [thsimpl; discriminate|].
         destruct (Nat.eqb_spec (idler_tid st) t); [congruence|].
         rewrite O0 by auto. apply (gw_idler _ _ _ G).
-    - intros ev Hev. rewrite Tr in *. apply T. exact Hev.
+    - apply (TI_same _ st); [exact T|exact Tr].
   Qed.
 
   (* ---- the entry function of the current thread returns: thread::die ----------------------------- *)
-  Lemma GoodT_join_notify x th now clock tr j src :
+  Lemma GoodT_join_notify x th now clock tr j :
     GoodT x th now clock tr -> th_state th = SLEEPING -> th_waitq th = Some (QJoin j) ->
-    GoodT x (set_tstate (set_twaitq (set_tesrc (set_terr th (-1)) src) None) READY) now clock tr.
+    GoodT x (set_tstate (set_twaitq (set_tesrc (set_terr th (-1)) (length tr)) None) READY) now clock tr.
   Proof.
-    intros [A B C D E F G] Hs Hw.
+    intros [A B C D E F G H] Hs Hw.
     destruct (E _ Hw) as (j' & Hj & Hop & Hk).
-    constructor; thsimpl; [exact A| | | | | |exact G].
+    constructor; thsimpl; [exact A| | | | | |exact G|eapply fresh_deliver; [exact H|reflexivity]].
     - discriminate.
     - intros d Hd. unfold cur_op in *. thsimpl. rewrite Hop in Hd. discriminate.
     - intros _. right. split; [reflexivity|]. split; [exists j'; exact Hop|exact Hk].
@@ -664,7 +690,7 @@ Section STEP.
         { destruct h as [x|]; [|apply (gw_idler _ _ _ G)].
           destruct (Nat.eqb_spec (idler_tid st) x); [thsimpl; discriminate|apply (gw_idler _ _ _ G)]. }
         destruct (Nat.eqb_spec (idler_tid st) to); [thsimpl; discriminate|exact Hidle].
-    - intros ev Hev. rewrite F3 in *. apply T. exact Hev.
+    - apply (TI_same _ st); [exact T|exact F3].
   Qed.
 
   (* ---- the idler's round -------------------------------------------------------------------------- *)
@@ -738,7 +764,7 @@ Section STEP.
              ++ destruct (Nat.eqb_spec u (idler_tid st)) as [->|]; [lia|]. apply A1; auto.
           -- rewrite (idler_tid_nthreads _ _ _ L), Gt.
              destruct (Nat.eqb_spec (idler_tid st) to); [congruence|]. rewrite Nat.eqb_refl. thsimpl. discriminate.
-        * intros ev Hev. rewrite Tr in *. apply T. exact Hev.
+        * apply (TI_same _ st); [exact T|exact Tr].
     - (* nothing to run: idle *)
       apply orb_false_iff in E. destruct E as (E0 & Es). apply negb_false_iff in E0, Es. apply Nat.eqb_eq in E0.
       assert (Hwk : wk = []) by (destruct wk; [auto|simpl in Hcount; congruence]). subst wk. rewrite app_nil_r in R1.
@@ -756,7 +782,7 @@ Section STEP.
           + intros u. rewrite Sg, S1. apply A2.
           + intros u Hu. rewrite Sg, S5, S6, N1, C1, Str, Tr1. apply A1; auto.
           + rewrite (idler_tid_nthreads _ _ _ S7), I1, Sg. exact A3.
-        - intros ev Hev. rewrite Str, Tr1 in *. apply T. exact Hev. }
+        - apply (TI_same _ st); [exact T|congruence]. }
       destruct (front (s_sleepq st1)) as [f|] eqn:Hfr.
       + destruct (th_ts (getth st1 f) =? MAX64) eqn:Emax.
         * apply Gend; [apply same_sched_set_end|reflexivity|reflexivity].
@@ -794,7 +820,7 @@ Section STEP.
                    --- intros X. pose proof (A2 u (or_introl X)) as Y. rewrite Hsingle in Y. destruct Y as [Y|[]]. lia.
                    --- intros X. pose proof (A2 u (or_intror X)) as Y. rewrite Hsingle in Y. destruct Y as [Y|[]]. lia.
              ++ change (idler_tid st2) with (idler_tid st1). rewrite I1. exact A3.
-          -- intros ev Hev. change (s_trace st2) with (s_trace st1) in *. rewrite Tr1 in *. apply T. exact Hev.
+          -- apply (TI_same _ st); [exact T|exact Tr1].
       + apply Gend; [apply same_sched_set_end|reflexivity|reflexivity].
   Qed.
 
